@@ -102,7 +102,9 @@ where
         // Track errors to as a factor of unit in last-precision.
         let mut errors: u32 = 0;
         if truncated {
-            errors += u64::error_halfscale();
+            // The digits cut off the mantissa are worth up to one unit of a
+            // mantissa that may need a 3-bit shift to be normalized.
+            errors += u64::error_scale();
         }
 
         // Multiply by the small power.
